@@ -48,14 +48,52 @@ func evalInt(info *types.Info, e ast.Expr, env map[types.Object]int64) (int64, b
 				if b != 0 {
 					return a % b, true
 				}
+			case token.XOR:
+				return a ^ b, true
+			case token.OR:
+				return a | b, true
+			case token.AND:
+				return a & b, true
+			case token.SHL:
+				if b >= 0 && b < 64 {
+					return int64(uint64(a) << uint(b)), true
+				}
+			case token.SHR:
+				if b >= 0 && b < 64 {
+					if t := info.TypeOf(x.X); t != nil {
+						if _, sg, ok := intWidth(t); ok && !sg {
+							return int64(uint64(a) >> uint(b)), true
+						}
+					}
+					return a >> uint(b), true
+				}
 			}
 		}
 	case *ast.CallExpr: // conversions byte(r), rune(x); math/bits.Len*
 		if len(x.Args) == 1 {
 			if tv, ok := info.Types[x.Fun]; ok && tv.IsType() {
-				return evalInt(info, x.Args[0], env)
+				v, ok := evalInt(info, x.Args[0], env)
+				if !ok {
+					return 0, false
+				}
+				if w, sg, isInt := intWidth(tv.Type); isInt && w < 64 {
+					u := uint64(v) & (1<<uint(w) - 1)
+					if sg && u>>(uint(w)-1) == 1 {
+						return int64(u | ^uint64(0)<<uint(w)), true
+					}
+					return int64(u), true
+				}
+				return v, true
 			}
 			switch calleeKey(info, x) {
+			case "math/bits.LeadingZeros64":
+				if v, ok := evalInt(info, x.Args[0], env); ok {
+					n := int64(0)
+					for u := uint64(v); u>>63 == 0 && n < 64; u <<= 1 {
+						n++
+					}
+					return n, true
+				}
 			case "math/bits.Len32", "math/bits.Len64", "math/bits.Len", "math/bits.Len16", "math/bits.Len8":
 				if v, ok := evalInt(info, x.Args[0], env); ok && v >= 0 {
 					n := int64(0)
